@@ -322,6 +322,48 @@ def rule_r10(chk, facts):
                    'the second Cleanup call after EXITM (ExpandEXITM, then GetNextLine) crashes' % (f.name, show(bad[1]), show(fld)))
 
 
+def rule_r12(chk, facts):
+    chk.rule('C03-R12', 'the IRPN group count (a signed expression result that becomes the stride InputTag.ParIter of the '
+             'parameter walk and a divisor) is accepted only when positive: in ProcessIRPNArgs() every path from the '
+             'evaluation to the exit on which no edge established count > 0 sets ErrFlag, and ExpandIRPN() stores the '
+             'count into the tag only with ErrFlag clear', min_instances=2)
+    P = facts.program('asl')
+    g = facts.func('as.c', 'ProcessIRPNArgs')
+    f = facts.func('as.c', 'ExpandIRPN')
+
+    def sets_flag(ex):
+        for m in walk_own(ex):
+            if is_assign(m) and strip(m[2])[0] == 'm' and strip(m[2])[2].endswith('.ErrFlag') and const_val(m[3]) == 1:
+                return True
+        return False
+    n = 0
+    for b2, i2, ln, node in g.nodes():
+        if is_assign(node) and node[1] == '=' and strip(node[2])[0] == 'm' and strip(node[2])[2].endswith('.ParamCnt'):
+            tgt = strip(node[2])
+            n += 1
+
+            def positive(a, tgt=tgt):
+                if a[0] == 'cmp' and a[2] == tgt and const_val(a[3]) is not None:
+                    c = const_val(a[3])
+                    return (a[1] == '>' and c >= 0) or (a[1] == '>=' and c >= 1) or (a[1] == '==' and c >= 1)
+                return False
+            ok, w = g.must_pass(b2, i2, sets_flag, edge_ok=lambda s_, d_, l: not (l is not None and edge_has_atom(l, positive)))
+            chk.ob('C03-R12', 'as.c:ProcessIRPNArgs:count>0', ok, g.loc(ln), 'non-positive counts set ErrFlag' if ok else
+                   'a path on which the count was not shown to be positive leaves ProcessIRPNArgs() without ErrFlag (%s): '
+                   '"irpn -1,x,1,2" is accepted and the expansion never ends' % ' '.join(w[-5:]))
+    if not n:
+        raise AnalysisBroken('store to ParamCnt not found in ProcessIRPNArgs')
+    m_ = 0
+    for b, i, ln, node in f.nodes():
+        if is_assign(node) and strip(node[2])[0] == 'm' and strip(node[2])[2].endswith('.ParIter'):
+            m_ += 1
+            ok, w = f.guarded(b, i, lambda l: edge_has_atom(l, lambda a: a[0] == 'z' and a[1][0] == 'm' and a[1][2].endswith('.ErrFlag')))
+            chk.ob('C03-R12', 'as.c:ExpandIRPN:ParIter=', ok, f.loc(ln), 'stored only with ErrFlag clear' if ok else
+                   'the group count is stored into the tag on a path that did not test ErrFlag')
+    if not m_:
+        raise AnalysisBroken('store to ParIter not found in ExpandIRPN')
+
+
 def rule_r11(chk, facts):
     chk.rule('C03-R11', 'the name validators ChkSymbName() and ChkMacSymbName() return False for the empty string (constant '
              'propagation through the validator and its helpers with the argument bound to ""): an empty macro/IRP '
@@ -361,6 +403,7 @@ def run(chk, facts, info):
     c03_nullbelief.run(chk, facts)
     rule_r10(chk, facts)
     rule_r11(chk, facts)
+    rule_r12(chk, facts)
     chk.note('Decided: divisor non-zero (R1), stack-head null guards (R2), external integer bounds (R3), '
              'string-copy capacities (R4). Not decided: hangs, heap lifetime, code generators\' private buffers.')
     chk.assumptions.append('malloc results are non-null; zero-initialised globals with a non-zero default are '
